@@ -1461,4 +1461,137 @@ theorem itick_ok {tc : TCfg} (R : Repaired tc.base) {top : Top} (T : TopInv top)
   · rw [if_pos (not_true_of hh)]
     exact ⟨top, "skip", rfl, T.pre⟩
 
+/-! ## one operation, any history -/
+
+/-- The repairs of this layer the theorems need. -/
+structure TRepaired (tc : TCfg) : Prop where
+  base : Repaired tc.base
+  sigwinch : tc.sigwinchClearsNext = true
+  setInputFd : tc.setInputFdClearsTermkey = true
+  rootForgets : tc.rootForgetsTickit = true
+
+/-- The operations the theorems of this layer cover: everything `no_ub` covers in the lower layers (with `bind` of
+    window handlers that free nothing), key and mouse events, the terminal's bindings (handlers with any actions:
+    `tickit_window_unref` of any window, `tickit_term_unref` included) and input entry points, the clock, the toplevel
+    instance with its watches and `tickit_tick`, the further terminals and the SIGWINCH observers,
+    `tickit_term_set_input_fd`, printing on the mock terminal.  Not covered: `tickit_mockterm_resize`, and what the
+    lower layers' theorems leave out (`focus`, drawing into a render buffer, `mdisp`); `end` has its own theorem. -/
+def XOp.covered : XOp → Prop
+  | .base op => op.topOk ∨ op = .key ∨ (∃ m, op = .mouse m) ∨ (∃ l c m, op = .newTerm l c m)
+  | .mresize .. => False
+  | _ => True
+
+theorem xstepCore_ok {tc : TCfg} (R : TRepaired tc) {top : Top} (T : TopInv top) (op : XOp) (h : op.covered) :
+    ∃ top1 r, xstepCore tc top op = .ok (top1, r) ∧ TopPre top1 := by
+  cases op with
+  | base op =>
+    rcases h with h | h | ⟨m, h⟩ | ⟨l, c, m, h⟩
+    · exact base_generic_ok R.base T op h
+    · subst h; exact base_key_ok R.base T
+    · subst h; exact base_mouse_ok R.base T m
+    · subst h; exact newTerm_ok top l c m
+  | mprint line col bytes => exact mprint_ok T line col bytes
+  | newin lines cols => exact newin_ok top lines cols
+  | tbind ev ret acts => exact tbind_ok T ev ret acts
+  | tunbind id => exact tunbind_ok T id
+  | tpush toks => exact tpush_ok R.base T toks
+  | tread toks => exact tread_ok R.base T toks
+  | twait toks tv => exact twait_ok R.base T toks tv
+  | tcheck => exact tcheck_ok R.base T
+  | tick ms => exact tick_ok T ms
+  | newtop lines cols => exact newtop_ok top lines cols
+  | iref => exact iref_ok T
+  | iunref => exact iunref_ok R.base R.rootForgets T
+  | ilater acts => exact ilater_ok T acts
+  | itimer ms acts => exact itimer_ok T ms acts
+  | icancel k => exact icancel_ok T k
+  | itick toks => exact itick_ok R.base T toks
+  | mresize lines cols => exact h.elim
+  | xnew =>
+    obtain ⟨top1, r, hs, ns, ok⟩ := xstepCore_sw R.sigwinch T.sw .xnew rfl
+    exact ⟨top1, r, hs, ⟨by rw [ghost_of_inst (InstRel.of_eq ns.inst)]; exact T.f.of_fields ns.st ns.tbinds, ok.pre,
+      T.inst.of_rel (InstRel.of_eq ns.inst), by rw [ns.dangling]; exact T.dangling⟩⟩
+  | xref k =>
+    obtain ⟨top1, r, hs, ns, ok⟩ := xstepCore_sw R.sigwinch T.sw (.xref k) rfl
+    exact ⟨top1, r, hs, ⟨by rw [ghost_of_inst (InstRel.of_eq ns.inst)]; exact T.f.of_fields ns.st ns.tbinds, ok.pre,
+      T.inst.of_rel (InstRel.of_eq ns.inst), by rw [ns.dangling]; exact T.dangling⟩⟩
+  | xunref k =>
+    obtain ⟨top1, r, hs, ns, ok⟩ := xstepCore_sw R.sigwinch T.sw (.xunref k) rfl
+    exact ⟨top1, r, hs, ⟨by rw [ghost_of_inst (InstRel.of_eq ns.inst)]; exact T.f.of_fields ns.st ns.tbinds, ok.pre,
+      T.inst.of_rel (InstRel.of_eq ns.inst), by rw [ns.dangling]; exact T.dangling⟩⟩
+  | xobs k on =>
+    obtain ⟨top1, r, hs, ns, ok⟩ := xstepCore_sw R.sigwinch T.sw (.xobs k on) rfl
+    exact ⟨top1, r, hs, ⟨by rw [ghost_of_inst (InstRel.of_eq ns.inst)]; exact T.f.of_fields ns.st ns.tbinds, ok.pre,
+      T.inst.of_rel (InstRel.of_eq ns.inst), by rw [ns.dangling]; exact T.dangling⟩⟩
+  | tobs on =>
+    obtain ⟨top1, r, hs, ns, ok⟩ := xstepCore_sw R.sigwinch T.sw (.tobs on) rfl
+    exact ⟨top1, r, hs, ⟨by rw [ghost_of_inst (InstRel.of_eq ns.inst)]; exact T.f.of_fields ns.st ns.tbinds, ok.pre,
+      T.inst.of_rel (InstRel.of_eq ns.inst), by rw [ns.dangling]; exact T.dangling⟩⟩
+  | winch =>
+    obtain ⟨top1, r, hs, ns, ok⟩ := xstepCore_sw R.sigwinch T.sw .winch rfl
+    exact ⟨top1, r, hs, ⟨by rw [ghost_of_inst (InstRel.of_eq ns.inst)]; exact T.f.of_fields ns.st ns.tbinds, ok.pre,
+      T.inst.of_rel (InstRel.of_eq ns.inst), by rw [ns.dangling]; exact T.dangling⟩⟩
+  | tsetin => exact tsetin_ok R.setInputFd T
+
+/-- One covered operation from a state satisfying the invariant: it succeeds and the invariant holds again. -/
+theorem xstep_top_ok {tc : TCfg} (R : TRepaired tc) {top : Top} (T : TopInv top) (op : XOp) (h : op.covered) :
+    ∃ top' r, xstep tc top op = .ok (top', r) ∧ TopInv top' := by
+  obtain ⟨top1, r, hs, P1⟩ := xstepCore_ok R T op h
+  obtain ⟨hx, T'⟩ := xstep_ok R.sigwinch hs P1
+  exact ⟨_, r, hx, T'⟩
+
+theorem xrun_top_ok {tc : TCfg} (R : TRepaired tc) : ∀ (ops : List XOp) (top : Top), TopInv top → (∀ op ∈ ops, op.covered) →
+    ∃ top', xrunOps tc top ops = .ok top' ∧ TopInv top'
+  | [], top, T, _ => ⟨top, rfl, T⟩
+  | op :: rest, top, T, h => by
+    obtain ⟨top1, r, hs, T1⟩ := xstep_top_ok R T op (h op (by simp))
+    obtain ⟨top', hr, T'⟩ := xrun_top_ok R rest top1 T1 (fun o ho => h o (by simp [ho]))
+    refine ⟨top', ?_, T'⟩
+    unfold xrunOps
+    rw [hs]
+    exact hr
+
+/-- The operations a history starts with. -/
+theorem xstep_start_ok {tc : TCfg} (R : TRepaired tc) (top : Top) (op : XOp) (h : op.isNew = true) :
+    ∃ top' r, xstep tc top op = .ok (top', r) ∧ TopInv top' := by
+  have : ∃ top1 r, xstepCore tc top op = .ok (top1, r) ∧ TopPre top1 := by
+    cases op <;> simp only [XOp.isNew, Bool.false_eq_true] at h
+    case base op =>
+      cases op <;> simp only [Bool.false_eq_true] at h
+      case newTerm l c m => exact newTerm_ok top l c m
+    case newin l c => exact newin_ok top l c
+    case newtop l c => exact newtop_ok top l c
+  obtain ⟨top1, r, hs, P1⟩ := this
+  obtain ⟨hx, T'⟩ := xstep_ok R.sigwinch hs P1
+  exact ⟨_, r, hx, T'⟩
+
+theorem xrun_from_start {tc : TCfg} (R : TRepaired tc) (start : XOp) (hstart : start.isNew = true) (ops : List XOp)
+    (h : ∀ op ∈ ops, op.covered) : ∃ top', xrunOps tc {} (start :: ops) = .ok top' ∧ TopInv top' := by
+  obtain ⟨top1, r, hs, T1⟩ := xstep_start_ok R {} start hstart
+  obtain ⟨top', hr, T'⟩ := xrun_top_ok R ops top1 T1 h
+  refine ⟨top', ?_, T'⟩
+  unfold xrunOps
+  rw [hs]
+  exact hr
+
+/-- What the invariant says about the objects this layer adds. -/
+theorem TopInv.facts {top : Top} (T : TopInv top) :
+    -- the terminal's binding list holds the root window's handlers only while the root window lives
+    (∀ b ∈ top.tbinds, b.isApp = false → rootAlive top.st = true) ∧
+    -- while the toplevel instance lives, so does the terminal it refers to, and the instance's count is the application's
+    (∀ i, top.inst = some i → i.freed = false → top.st.term.freed = false ∧ 1 ≤ top.st.term.refcount ∧
+      1 ≤ i.refcount ∧ i.refcount = (i.appRefs : Int)) ∧
+    -- a destroyed instance has no watch left and nobody holds a reference to it
+    (∀ i, top.inst = some i → i.freed = true → i.laters = [] ∧ i.timers = [] ∧ i.appRefs = 0) ∧
+    -- a terminal the application still refers to has not been freed
+    (top.st.term.freed = true → top.st.term.appRefs = 0) := by
+  refine ⟨T.f.root, ?_, T.inst.dead, fun hf => (T.f.inv.term_dead hf).2.1⟩
+  intro i hi hf
+  have hg : top.ghost = instGhost := ghost_alive hi hf
+  have hlive : top.st.term.freed = false := term_live_of_ghost T.f.inv (by rw [hg]; decide)
+  refine ⟨hlive, ?_, T.inst.live i hi hf⟩
+  by_cases hr : ∃ r, LiveW top.st.tree 0 r
+  · have := T.f.inv.term_held hlive (.inl hr); omega
+  · exact (T.f.inv.term_free hlive (by rintro (h' | h'); exact hr h'; simp at h')).2
+
 end Tickit.Life
